@@ -501,6 +501,8 @@ pub fn run_c18(tier: &str) -> i32 {
 
 thread_local! {
     static DRAIN_REC: crate::rec::Recorder = crate::rec::Recorder::install();
+    /// set while processing a seed whose pristine drain does not return (a C06 matter): the drain is then not used
+    static SKIP_DRAIN: std::cell::Cell<bool> = const { std::cell::Cell::new(false) };
 }
 
 fn restore_key(level: &PriceLevel) -> (u64, u64, u64, usize, Vec<Rec>, String, MatchObs) {
@@ -511,11 +513,15 @@ fn restore_key(level: &PriceLevel) -> (u64, u64, u64, usize, Vec<Rec>, String, M
     // the maker sequence of a draining match shows the stored order sequence; books whose
     // price x quantity products exceed 64 bits (outside the stated precondition) cannot be drained
     // under overflow checks - for those the sequence is not observed
-    let d = DRAIN_REC.with(|r| {
-        r.with_budget(20_000, || {
-            match_obs(&level.match_order(crate::seq_level::DRAIN_QTY, oid(999), &g))
+    let d = if SKIP_DRAIN.with(|s| s.get()) {
+        Err(crate::rec::BudgetOrPanic::Budget)
+    } else {
+        DRAIN_REC.with(|r| {
+            r.with_budget(2_000, || {
+                match_obs(&level.match_order(crate::seq_level::DRAIN_QTY, oid(999), &g))
+            })
         })
-    });
+    };
     let d = match d {
         Ok(d) => d,
         // did not return: make it visible as a distinct, comparable marker (remaining = MAX)
@@ -741,8 +747,15 @@ pub fn run_c09(tier: &str) -> i32 {
                         a.failures.push("C09 snapshot_to_json failed on a valid level".into());
                         continue;
                     };
+                    SKIP_DRAIN.with(|s| s.set(false));
                     let pristine = match PriceLevel::from_snapshot_json(&text) {
-                        Ok(l) => restore_key(&l),
+                        Ok(l) => {
+                            let k = restore_key(&l);
+                            if k.6.remaining == u64::MAX && k.6.fills.is_empty() {
+                                SKIP_DRAIN.with(|s| s.set(true));
+                            }
+                            k
+                        }
                         Err(e) => {
                             a.failures.push(format!("C09 an untouched package is rejected: {e}; {text}"));
                             continue;
